@@ -236,6 +236,14 @@ elab "guard_not_mk" : tactic => do
   if g.isApp && g.appArg!.consumeMData.getAppFn.isConstOf ``Streams.mk then
     throwError "guard_not_mk: a record update"
 
+open Lean Elab Tactic Meta in
+/-- succeeds when the last argument of the goal is an application of the constant `c` -/
+elab "guard_last_arg " c:ident : tactic => do
+  let g ← instantiateMVars (← getMainTarget)
+  let n ← realizeGlobalConstNoOverloadWithInfo c
+  unless g.isApp && g.appArg!.consumeMData.getAppFn.isConstOf n do
+    throwError "guard_last_arg: head is not {n}"
+
 /-- one primitive off the outside of the goal `Fr s (prim … t …)` (extended in later files) -/
 syntax "fr_peel" : tactic
 macro_rules | `(tactic| fr_peel) => `(tactic| first
